@@ -407,6 +407,8 @@ def exec_type(t, v, prep, rng, do_set=True):
                             continue
                         kw = {"obj": obj}
                         for k, i in enumerate(idx): kw["i%d" % k] = i
+                        if lt["k"] == "scalar" and not any(s_[0] == "r" for s_ in steps):
+                            call["rel"] = int(addr) - int(obj._offset); call["isz"] = int(np.dtype(X.DT[lt["name"]]).itemsize)
                         K = ctx.kernels[name]
                         base = np.frombuffer(b.buffer, dtype="int8").ctypes.data
                         if act == "get":
@@ -430,6 +432,8 @@ def exec_type(t, v, prep, rng, do_set=True):
                         elif act == "set" and do_set:
                             import gen_values_local as GV
                             newb = GV.scalar_bytes(rnd, lt["name"])
+                            if phase == "first" and lt["name"].startswith("Float"):
+                                newb = [1] + [0] * (len(newb) - 1)          # the smallest subnormal: bit-exact delivery or nothing
                             before = snap(b)
                             kw["value"] = X.np_scalar(lt["name"], newb)
                             K(**kw)
